@@ -152,6 +152,11 @@ def r06_1(ctx, m, info):
     if ok_sorted:
         arg = norm(srt.args[0])
         tv = norm(loop.target) if not isinstance(loop.target, ast.Tuple) else norm(loop.target.elts[-1])
+        if tv not in arg:
+            # the index may be held in a temporary of the loop body (`k = int(node.split(" ")[1]); ... bubbles[k]`)
+            from ..core import make_resolver as _mr
+
+            arg = norm(_mr(loop.body)(srt.args[0]))
         ctx.check(tv in arg, "R06.1", dec.where(inner), "the bubble enumerated is the one indexed by the current traversal element", key_of(dec, f"bubble-set:{arg}"), expr=arg)
 
 
@@ -237,6 +242,26 @@ def r06_2_4(ctx, m, info):
     for r in early:
         src = norm(r.value.elts[pos])
         good = {f"{param} + 1", f"1 + {param}"} if kind == "assign" else {"1"}
+        if src not in good:
+            # the value as an affine form of the incoming counter, through the straight-line statements before the return
+            from ..affine import AffEval
+
+            blk = None
+            for own in ast.walk(dec.node):
+                for fld in ("body", "orelse"):
+                    lst = getattr(own, fld, None)
+                    if isinstance(lst, list) and any(x is r for x in lst):
+                        blk = lst[: lst.index(r)]
+            if blk is not None and all(isinstance(x, (ast.Assign, ast.AugAssign, ast.Expr)) for x in blk):
+                ev_ = AffEval()
+                for x in blk:
+                    ev_.assign(x)
+                got = ev_.of(r.value.elts[pos])
+                want_ = ev_.of(ast.parse(sorted(good)[0], mode="eval").body) if kind == "assign" else None
+                if kind == "assign" and got.t == {param: 1} and got.c == 1:
+                    src = f"{param} + 1"
+                elif kind != "assign" and not got.t and got.c == 1:
+                    src = "1"
         ctx.check(src in good, "R06.4", dec.where(r), "a single-node component uses exactly one BO index", key_of(dec, f"single-node-return:{src}"), returned=src)
         # its node gets (param, 0)
         d = r.value.elts[2] if len(r.value.elts) > 2 else None
@@ -253,6 +278,8 @@ def r06_3(ctx, m, info):
     for st in dec.node.body:
         if isinstance(st, ast.If) and any(isinstance(c, ast.Call) and isinstance(c.func, ast.Attribute) and c.func.attr == "reverse" and norm(c.func.value) == trav for c in ast.walk(st)):
             block = st
+    if block is None and any(isinstance(a, ast.Assign) and norm(a.targets[0]) == trav and (norm(a.value) in (f"{trav}[::-1]", f"list(reversed({trav}))")) for a in walk_own(dec.node)):
+        raise AnalysisError("R06.3", dec.where(loop), f"the traversal `{trav}` is re-oriented by rebinding it to a reversed copy: that spelling is not read by this rule")
     if block is None:
         # reversed(...) idiom is not recognised
         ctx.violated("R06.3", dec.where(loop), f"the traversal `{trav}` is never re-oriented by reference offset before numbering", key_of(dec, "no-orientation-block"))
@@ -311,6 +338,8 @@ def r06_3(ctx, m, info):
 def r06_4_caller(ctx, m):
     run = m.run
     proto = oc.counter_protocol(m)
+    if proto is None:
+        raise AnalysisError("R06.4", run.where(m.loop), "cannot identify the loop-carried BO counter")
     kind, pos, counter, param = proto[:4]
     # loop iterates the requested order itself
     it = m.loop.iter
